@@ -66,22 +66,30 @@ def build_tools(ctx):
 
 
 def build_harness(ctx, race=False):
+    """the harness is linked against REPO's working tree (default /repo; VERIF_REPO=<scratch copy> to
+    try the checks on a modified copy without touching /repo)"""
     t = time.time()
     h = os.path.join(ROOT, 'harness')
+    gomod = open(os.path.join(h, 'go.mod')).read()
+    gomod = re.sub(r'(replace github.com/muktihari/fit => ).*', lambda m: m.group(1) + REPO, gomod)
+    os.makedirs(WORK, exist_ok=True)
+    modfile = os.path.join(WORK, 'harness.mod')
+    if not os.path.exists(modfile) or open(modfile).read() != gomod:
+        open(modfile, 'w').write(gomod)
     try:
-        shutil.copy(os.path.join(REPO, 'go.sum'), os.path.join(h, 'go.sum'))
+        shutil.copy(os.path.join(REPO, 'go.sum'), os.path.join(WORK, 'harness.sum'))
     except OSError:
         pass
     out_bin = os.path.join(BIN, 'fitharness-race' if race else 'fitharness')
-    cmd = ['go', 'build', '-tags', 'verif', '-o', out_bin]
+    cmd = ['go', 'build', '-modfile', modfile, '-tags', 'verif', '-o', out_bin]
     env = dict(GOENV)
     if race:
         cmd.insert(2, '-race'); env['CGO_ENABLED'] = '1'
     rc, out = sh(cmd + ['.'], cwd=h, env=env)
     ctx.timing['build_harness' + ('_race' if race else '')] = round(time.time() - t, 2)
     if rc != 0:
-        # /repo (or the hooks) no longer compile against the harness: the tie cannot be run
-        ctx.fail('tool', 'harness does not build against /repo working tree', detail=out[-3000:])
+        # REPO (or the hooks) no longer compile against the harness: the tie cannot be run
+        ctx.fail('tool', f'harness does not build against {REPO} working tree', detail=out[-3000:])
         return False
     return True
 
